@@ -10,7 +10,8 @@ Deductive part (pyvc over the real ASTs):
     no remaining glyph references a skipped glyph, removed names are reported
   * the interpolatable variants
   * BaseCompiler.preprocess / BaseInterpolatableCompiler._pre_compile_designspace: skip-list resolution
-  * order lemma over spec.official_order (induction step + base; full statement bounded)
+  * order lemma over spec.official_order: proved by four inductions (lemmas C13.ord.*, base + step each)
+  * util._copyGlyph / _copyLayer / _GlyphSet.from_layer (the glyph set handed to the pre-processors, with the static filter run on it)
 Bounded part: vcheck/hooks/c13.py (compile with / without skipping, compare rendering / advance / order / kerning).
 """
 import z3
